@@ -49,6 +49,20 @@ def w_yaml_hdf5(arg):
     ss.addhdf5(f5.create_group('ss')); ss2 = stars.StarSet.loadhdf5(c, f5['ss'])
     acc.check(ss2.states == ss.states and ss2.stars == ss.stars and np.array_equal(ss2.index, ss.index) and ss2.Nshells == ss.Nshells and
               all(ss2.stateindex(s) == ss.stateindex(s) for s in ss.states), 'starset-hdf5-round-trip', '', sig='ss')
+    # the reloaded set is the same object in every field that later computations read, and behaves the same
+    acc.check(ss2.jumplist == ss.jumplist and [list(x) for x in ss2.jumpnetwork_index] == [list(x) for x in ss.jumpnetwork_index] and
+              len({id(x) for x in ss2.jumpnetwork_index}) == len(ss2.jumpnetwork_index) and ss2.Nstates == ss.Nstates and ss2.Nstars == ss.Nstars and
+              len({id(x) for x in ss2.stars}) == len(ss2.stars),
+              'starset-hdf5-round-trip:jump-tables-identical-and-unshared', '', sig='ssj')
+    def canon(net):
+        jn_, jt_, sp_ = net
+        return sorted((tuple(sorted((i, f) for (i, f), dx in jl)), t_, tuple(p_)) for jl, t_, p_ in zip(jn_, jt_, sp_))
+    acc.check(canon(ss2.jumpnetwork_omega1()) == canon(ss.jumpnetwork_omega1()) and canon(ss2.jumpnetwork_omega2()) == canon(ss.jumpnetwork_omega2()),
+              'starset-hdf5-round-trip:omega-networks-of-the-reloaded-set-identical', '', sig='sso')
+    ss3 = stars.StarSet.loadhdf5(c, f5['ss']); ss3.generate(2, originstates=True)
+    ssg = stars.StarSet(jn, c, chem, 2, originstates=True)
+    acc.check(set(ss3.states) == set(ssg.states) and ss3.Nstars == ssg.Nstars and canon(ss3.jumpnetwork_omega1()) == canon(ssg.jumpnetwork_omega1()),
+              'starset-hdf5-round-trip:regenerating-a-reloaded-set-equals-a-fresh-one', '', sig='ssg')
     vs = stars.VectorStarSet(ss)
     vs.addhdf5(f5.create_group('vs')); vs2 = stars.VectorStarSet.loadhdf5(ss, f5['vs'])
     acc.check(vs2.Nvstars == vs.Nvstars and vs2.vecpos == vs.vecpos and all(np.array_equal(a, b) for x, y in zip(vs2.vecvec, vs.vecvec) for a, b in zip(x, y))
